@@ -33,6 +33,9 @@ _build_cache = {}
 def build(features=("verif",), release=False, repo=None, quiet=True):
     """cargo build from the repo's current working tree; returns (binary path, hooks_available)."""
     repo = repo or REPO
+    if os.environ.get("VERIF_FORCE_NOHOOKS"):
+        # exercise the fall-back path (hooks broken by a refactoring): plain build, black-box oracles only
+        features = tuple(f for f in features if f != "verif")
     key = (repo, tuple(features), release)
     if key in _build_cache:
         return _build_cache[key]
